@@ -148,7 +148,14 @@ int __wrap_select(int n, fd_set *r, fd_set *w, fd_set *e, struct timeval *tv) {
   return __real_select(n, r, w, e, tv);
 }
 ssize_t __wrap_read(int fd, void *b, size_t n) { if (t_lib) perturb(); return __real_read(fd, b, n); }
-ssize_t __wrap_write(int fd, const void *b, size_t n) { if (t_lib) perturb(); return __real_write(fd, b, n); }
+static volatile int g_write_blocked;   /* a clientOutput thread found its socket full */
+ssize_t __wrap_write(int fd, const void *b, size_t n) {
+  ssize_t r;
+  if (t_lib) perturb();
+  r = __real_write(fd, b, n);
+  if (t_lib && t_role == 3 && (r < (ssize_t)n)) g_write_blocked++;
+  return r;
+}
 
 /* library threads: mark them, count them */
 typedef struct { void *(*fn)(void *); void *arg; int role; } tramp_t;
@@ -232,6 +239,7 @@ static int cl_connect(int port) {
   setsockopt(fd, IPPROTO_TCP, TCP_NODELAY, &one, sizeof one);
   return fd;
 }
+static int g_hs_shared = 1;
 static int cl_handshake(int fd) {
   unsigned char b[64]; uint32_t nl;
   if (rd_full(fd, b, 12, 5000)) return -1;
@@ -239,7 +247,7 @@ static int cl_handshake(int fd) {
   if (rd_full(fd, b, 2, 5000)) return -3;        /* one type: None */
   b[0] = 1; if (wr_full(fd, b, 1)) return -4;
   if (rd_full(fd, b, 4, 5000)) return -5;
-  b[0] = 1; if (wr_full(fd, b, 1)) return -6;    /* shared */
+  b[0] = (unsigned char)g_hs_shared; if (wr_full(fd, b, 1)) return -6;    /* shared flag */
   if (rd_full(fd, b, 24, 5000)) return -7;
   nl = ((uint32_t)b[20] << 24) | (b[21] << 16) | (b[22] << 8) | b[23];
   if (nl > 40 || rd_full(fd, b, nl, 5000)) return -1;
@@ -723,11 +731,212 @@ out:
   return 0;
 }
 
+/* ================================================================== policy: sharing decisions inside the threaded lifecycle
+ * A (shared) is normal, B finishes ClientInit with the given shared flag under the given screen flags;
+ * expected (C14): exclusive = never || (!always && !bshared); exclusive && dontDisconnect -> B refused;
+ * exclusive && !dontDisconnect -> A closed; otherwise both stay.  Then the surviving first client is
+ * torn down by the given route (0 peer close, 1 rfbCloseClient from the application, 2 only shutdown),
+ * a further client connects, and the server is shut down with it connected. */
+static int sock_alive(int fd, int ms) {           /* 1 = open and served, 0 = closed by the server, -1 = silent */
+  unsigned char m[10] = {3, 0, 0, 0, 0, 0, 0, 4, 0, 4}; unsigned char h[16]; static unsigned char px[W * H * 4]; int waited = 0;
+  if (wr_full(fd, m, 10)) return 0;
+  while (waited < ms) {
+    struct pollfd pf = {fd, POLLIN, 0}; int r = poll(&pf, 1, 50), n, i; ssize_t k;
+    if (r <= 0) { waited += 50; continue; }
+    k = __real_read(fd, h, 1);
+    if (k <= 0) return 0;
+    if (h[0] == 0) {                              /* a whole FramebufferUpdate (Raw rectangles) */
+      if (rd_full(fd, h + 1, 3, 3000)) return 0;
+      n = (h[2] << 8) | h[3];
+      for (i = 0; i < n; i++) {
+        int w, hh;
+        if (rd_full(fd, h, 12, 3000)) return 0;
+        w = (h[4] << 8) | h[5]; hh = (h[6] << 8) | h[7];
+        if ((size_t)w * hh * 4 > sizeof px || rd_full(fd, px, (size_t)w * hh * 4, 3000)) return 0;
+      }
+      return 1;
+    }
+    if (h[0] == 2) continue;
+    if (h[0] == 3) { if (rd_full(fd, h + 1, 7, 3000)) return 0; { uint32_t l = ((uint32_t)h[4] << 24) | (h[5] << 16) | (h[6] << 8) | h[7]; if (l > sizeof px || rd_full(fd, px, l, 3000)) return 0; } continue; }
+    return -1;
+  }
+  return -1;
+}
+static int wait_gone(int target, int ms) { int w = 0; while (g_gone < target && w < ms) { usleep(1000); w++; } return g_gone >= target; }
+
+static int run_policy(unsigned seed, int ypct, int always, int never, int dd, int bshared, int route) {
+  int argc = 0, port, fa, fb_, fc, exclusive, a_st, b_st, ok_pol, tore = 1, survivor_fd, survivor_slot; uint32_t *fbuf;
+  g_seed = seed; g_yield_pct = ypct;
+  rfbLogEnable(getenv("VDRV_LOG") != NULL);
+  S = rfbGetScreen(&argc, NULL, W, H, 8, 3, 4);
+  fbuf = (uint32_t *)calloc(W * H, 4); S->frameBuffer = (char *)fbuf;
+  S->deferUpdateTime = 1; S->newClientHook = new_hook;
+  S->alwaysShared = always; S->neverShared = never; S->dontDisconnect = dd;
+  rfbSetCursor(S, NULL);
+  phase("init", 20);
+  port = start_server();
+  if (port < 0) { printf("result error=nolisten\n"); return 1; }
+  LIBCALL(rfbRunEventLoop(S, -1, TRUE));
+  phase("policy-connect", 30);
+  g_hs_shared = 1; fa = cl_connect(port);
+  if (fa < 0 || cl_handshake(fa)) { printf("result error=connectA\n"); return 1; }
+  if (sock_alive(fa, 3000) != 1) { printf("result error=initialA\n"); return 1; }
+  g_hs_shared = bshared; fb_ = cl_connect(port);
+  if (fb_ < 0) { printf("result error=connectB\n"); return 1; }
+  b_st = cl_handshake(fb_) ? 0 : sock_alive(fb_, 3000);
+  a_st = sock_alive(fa, 3000);
+  g_hs_shared = 1;
+  exclusive = never || (!always && !bshared);
+  ok_pol = exclusive ? (dd ? (a_st == 1 && b_st == 0) : (a_st == 0 && b_st == 1)) : (a_st == 1 && b_st == 1);
+  printf("presult mode=policy policy_ok=%d a=%d b=%d exclusive=%d dd=%d\n", ok_pol, a_st, b_st, exclusive, dd);
+  fflush(stdout);
+  /* teardown of the first client that is still connected */
+  survivor_fd = a_st == 1 ? fa : fb_; survivor_slot = a_st == 1 ? 0 : 1;
+  phase("policy-teardown", 20);
+  { int closed_by_server = (a_st == 0) + (b_st == 0);
+    if (!wait_gone(closed_by_server, 5000)) tore = 0;          /* the refused / replaced one */
+    if (route == 0) { close(survivor_fd); if (!wait_gone(closed_by_server + 1, 5000)) tore = 0; }
+    else if (route == 1 && slots[survivor_slot].live) { LIBCALL(rfbCloseClient(slots[survivor_slot].cl)); if (!wait_gone(closed_by_server + 1, 5000)) tore = 0; close(survivor_fd); }
+  }
+  printf("presult2 torn_down_in_time=%d new=%d gone=%d\n", tore, g_new, g_gone);
+  fflush(stdout);
+  fc = cl_connect(port);
+  if (fc >= 0 && !cl_handshake(fc)) sock_alive(fc, 2000);
+  phase("shutdown", 25);
+  LIBCALL(rfbShutdownServer(S, TRUE));
+  phase("cleanup", 25);
+  { int w = 0; while (g_gone < g_new && w++ < 2000) usleep(500); }
+  LIBCALL(rfbScreenCleanup(S));
+  alarm(0);
+  close(fa); close(fb_); if (fc >= 0) close(fc);
+  printf("result hang=0 mode=policy new=%d gone=%d dupgone=%d\n", g_new, g_gone, g_dupgone);
+  free(fbuf);
+  return 0;
+}
+
+/* ================================================================== fragment: a heavily fragmented update, a slow reader, a mark placed mid-send
+ * 60 separate squares are marked (more than maxRectsPerUpdate: the update goes out as its bounding box);
+ * socket buffers are tiny and the peer pauses after a few rows, so the output thread blocks in write();
+ * the application then changes and marks a pixel of a row that has already been read; the peer resumes,
+ * asks again incrementally and must end up with the application's framebuffer. */
+#define FW 320
+#define FH 240
+static enum rfbNewClientAction new_hook_smallbuf(rfbClientPtr cl) {
+  int sz = 4096; setsockopt(cl->sock, SOL_SOCKET, SO_SNDBUF, &sz, sizeof sz);
+  return new_hook(cl);
+}
+static int run_fragment(unsigned seed, int ypct) {
+  int argc = 0, port, fd, i, n, diff = -1, blocked, got = 0, rounds; static uint32_t cfb[FW * FH]; uint32_t *fbuf;
+  unsigned char h[16]; sraRegionPtr rg;
+  g_seed = seed; g_yield_pct = ypct;
+  rfbLogEnable(getenv("VDRV_LOG") != NULL);
+  S = rfbGetScreen(&argc, NULL, FW, FH, 8, 3, 4);
+  fbuf = (uint32_t *)calloc(FW * FH, 4); S->frameBuffer = (char *)fbuf;
+  for (i = 0; i < FW * FH; i++) fbuf[i] = 0x00400000u + (uint32_t)i;
+  S->deferUpdateTime = 1; S->newClientHook = new_hook_smallbuf; S->alwaysShared = TRUE;
+  rfbSetCursor(S, NULL);
+  phase("init", 20);
+  port = start_server();
+  if (port < 0) { printf("result error=nolisten\n"); return 1; }
+  LIBCALL(rfbRunEventLoop(S, -1, TRUE));
+  phase("fragment-connect", 40);
+  fd = socket(AF_INET, SOCK_STREAM, 0);
+  { int sz = 4096, one = 1; struct sockaddr_in a; setsockopt(fd, SOL_SOCKET, SO_RCVBUF, &sz, sizeof sz);
+    memset(&a, 0, sizeof a); a.sin_family = AF_INET; a.sin_port = htons(port); a.sin_addr.s_addr = htonl(INADDR_LOOPBACK);
+    if (connect(fd, (struct sockaddr *)&a, sizeof a) < 0) { printf("result error=connect\n"); return 1; }
+    setsockopt(fd, IPPROTO_TCP, TCP_NODELAY, &one, sizeof one); }
+  if (cl_handshake(fd)) { printf("result error=handshake\n"); return 1; }
+  /* initial picture */
+  { unsigned char m[10] = {3, 0, 0, 0, 0, 0, (FW >> 8), (FW & 255), (FH >> 8), (FH & 255)}; wr_full(fd, m, 10); }
+  if (rd_full(fd, h, 4, 5000) || h[0] != 0) { printf("result error=initial\n"); return 1; }
+  n = (h[2] << 8) | h[3];
+  for (i = 0; i < n; i++) {
+    int x, y, w, hh, yy;
+    if (rd_full(fd, h, 12, 5000)) { printf("result error=initial2\n"); return 1; }
+    x = (h[0] << 8) | h[1]; y = (h[2] << 8) | h[3]; w = (h[4] << 8) | h[5]; hh = (h[6] << 8) | h[7];
+    if (x + w > FW || y + hh > FH) { printf("result error=initial3\n"); return 1; }
+    for (yy = 0; yy < hh; yy++) if (rd_full(fd, &cfb[(y + yy) * FW + x], (size_t)w * 4, 5000)) { printf("result error=initial4\n"); return 1; }
+  }
+  usleep(50000);
+  /* no request outstanding: 60 separate squares, one mark */
+  phase("fragment-mark", 40);
+  rg = sraRgnCreate();
+  for (i = 0; i < 60; i++) {
+    int sx = (i % 10) * 30 + 2, sy = (i / 10) * 38 + 1, xx, yy; sraRegionPtr r1 = sraRgnCreateRect(sx, sy, sx + 4, sy + 4);
+    for (yy = 0; yy < 4; yy++) for (xx = 0; xx < 4; xx++) fbuf[(sy + yy) * FW + sx + xx] = 0x00ff0000u + (uint32_t)i;
+    sraRgnOr(rg, r1); sraRgnDestroy(r1);
+  }
+  LIBCALL(rfbMarkRegionAsModified(S, rg));
+  sraRgnDestroy(rg);
+  g_write_blocked = 0;
+  { unsigned char m[10] = {3, 1, 0, 0, 0, 0, (FW >> 8), (FW & 255), (FH >> 8), (FH & 255)}; wr_full(fd, m, 10); }
+  /* the peer reads the header and a few rows of the first rectangle, then pauses */
+  if (rd_full(fd, h, 4, 5000) || h[0] != 0) { printf("result error=update\n"); return 1; }
+  n = (h[2] << 8) | h[3];
+  {
+    int r, x = 0, y = 0, w = 0, hh = 0, yy = 0, paused = 0, fail = 0;
+    for (r = 0; r < n && !fail; r++) {
+      if (rd_full(fd, h, 12, 8000)) { fail = 1; break; }
+      x = (h[0] << 8) | h[1]; y = (h[2] << 8) | h[3]; w = (h[4] << 8) | h[5]; hh = (h[6] << 8) | h[7];
+      if (h[8] | h[9] | h[10] | h[11] || x + w > FW || y + hh > FH) { fail = 2; break; }
+      for (yy = 0; yy < hh; yy++) {
+        if (rd_full(fd, &cfb[(y + yy) * FW + x], (size_t)w * 4, 8000)) { fail = 1; break; }
+        if (!paused && r == 0 && yy == 12) {
+          /* pause: wait until the output thread is blocked in write(), then the application marks */
+          int wt = 0; paused = 1;
+          while (!g_write_blocked && wt++ < 3000) usleep(1000);
+          blocked = g_write_blocked;
+          /* pixel (x+3, y+2): inside the rectangle in flight, its row has been read long ago */
+          fbuf[(y + 2) * FW + x + 3] = 0x0012abcdu;
+          LIBCALL(rfbMarkRectAsModified(S, x + 3, y + 2, x + 4, y + 3));
+          usleep(20000);
+        }
+      }
+    }
+    got = n;
+    if (fail) { printf("presult mode=fragment fragment_ok=0 why=stream%d rects=%d\n", fail, n); fflush(stdout); goto done; }
+  }
+  /* the peer asks again (incrementally) until it shows the application's framebuffer */
+  phase("fragment-settle", 40);
+  for (rounds = 0; rounds < 40; rounds++) {
+    unsigned char m[10] = {3, 1, 0, 0, 0, 0, (FW >> 8), (FW & 255), (FH >> 8), (FH & 255)};
+    diff = 0; for (i = 0; i < FW * FH; i++) if (cfb[i] != fbuf[i]) diff++;
+    if (!diff) break;
+    wr_full(fd, m, 10);
+    if (rd_full(fd, h, 4, 200)) continue;
+    if (h[0] != 0) break;
+    n = (h[2] << 8) | h[3];
+    for (i = 0; i < n; i++) {
+      int x, y, w, hh, yy;
+      if (rd_full(fd, h, 12, 5000)) break;
+      x = (h[0] << 8) | h[1]; y = (h[2] << 8) | h[3]; w = (h[4] << 8) | h[5]; hh = (h[6] << 8) | h[7];
+      if (x + w > FW || y + hh > FH) break;
+      for (yy = 0; yy < hh; yy++) if (rd_full(fd, &cfb[(y + yy) * FW + x], (size_t)w * 4, 5000)) break;
+    }
+  }
+  printf("presult mode=fragment fragment_ok=%d diff=%d rects_in_first_update=%d write_blocked=%d\n", diff == 0, diff, got, blocked);
+  fflush(stdout);
+done:
+  close(fd);
+  { int w = 0; while (g_gone < g_new && w++ < 4000) usleep(500); }
+  phase("shutdown", 25);
+  LIBCALL(rfbShutdownServer(S, TRUE));
+  phase("cleanup", 25);
+  LIBCALL(rfbScreenCleanup(S));
+  alarm(0);
+  printf("result hang=0 mode=fragment new=%d gone=%d\n", g_new, g_gone);
+  free(fbuf);
+  return 0;
+}
+
 static void run_case(char *line) {
   unsigned seed = 1; int y = 20, a = 2, b = 2, c = 1, d = 2, e = 5, f = 1;
   pid_t pid; int status = 0;
   int forced = 0; unsigned pseed = 1; int py = 20, prounds = 1;
+  int q1 = 0, q2 = 0, q3 = 0, q4 = 0, q5 = 0;
   if (!strncmp(line, "phases ", 7)) { forced = 9; sscanf(line, "phases %u %d %d", &pseed, &py, &prounds); }
+  if (!strncmp(line, "policy ", 7)) { forced = 10; sscanf(line, "policy %u %d %d %d %d %d %d", &pseed, &py, &q1, &q2, &q3, &q4, &q5); }
+  if (!strncmp(line, "fragment ", 9)) { forced = 11; sscanf(line, "fragment %u %d", &pseed, &py); }
   if (!strncmp(line, "force lostwakeup", 16)) forced = 1;
   else if (!strncmp(line, "force iteruaf", 13)) forced = 2;
   else if (!strncmp(line, "force cursor", 12)) forced = 3;
@@ -737,6 +946,8 @@ static void run_case(char *line) {
   if (pid == 0) {
     signal(SIGALRM, on_alarm); signal(SIGPIPE, SIG_IGN);
     if (forced == 9) run_phases(pseed, py, prounds); else
+    if (forced == 10) run_policy(pseed, py, q1, q2, q3, q4, q5); else
+    if (forced == 11) run_fragment(pseed, py); else
     if (forced) run_forced(forced); else
     run_stress(seed, y, a, b, c, d, e, f);
     fflush(stdout);
@@ -761,7 +972,7 @@ int main(void) {
     while (n && (line[n - 1] == '\n' || line[n - 1] == '\r')) line[--n] = 0;
     if (!n) continue;
     if (!strncmp(line, "case ", 5)) { printf("%s\n", line); continue; }
-    if (!strncmp(line, "stress ", 7) || !strncmp(line, "force ", 6) || !strncmp(line, "phases ", 7)) run_case(line);
+    if (!strncmp(line, "stress ", 7) || !strncmp(line, "force ", 6) || !strncmp(line, "phases ", 7) || !strncmp(line, "policy ", 7) || !strncmp(line, "fragment ", 9)) run_case(line);
   }
   fflush(stdout);
   _exit(0);
